@@ -85,10 +85,12 @@ func (c *Ctx) reportLockAccesses(rule string, la *lockset.Analysis, pkg, owner, 
 }
 
 func C16(c *Ctx) {
-	c.R.Explanation = "Decides structural necessary conditions of 'memory advances only with a successful write; requests are serialised' for cmd/mcrew: (R1) every mutation of the service's machine map and of a member's State is dominated by the err==nil outcome of a Storage.WriteState call in the same function; (R2) the machine map, members' states and every WriteState call are accessed only with the crew's lock held (write lock for mutations and for the store write), and a function that reads crew state and then writes it keeps one uninterrupted critical section (one acquisition dominating all accesses, no release before the last one); (R3) WriteState puts or deletes every given record inside the function literal of a single, loop-free db.Update whose result it returns, keeps no state of its own, and skips no record. (R4) in AddMachine the node name and bindings of the record handed to WriteState resolve (through struct literals, helpers and defaults) to exactly the values installed as the new machine's State, so a restart loads what memory holds. Linearizability of observed outcomes is not decided."
+	c.R.Explanation = "Decides structural necessary conditions of 'memory advances only with a successful write; requests are serialised' for cmd/mcrew: (R1) every mutation of the service's machine map and of a member's State is dominated by the err==nil outcome of a Storage.WriteState call in the same function; (R2) the machine map, members' states and every WriteState call are accessed only with the crew's lock held (write lock for mutations and for the store write), and a function that reads crew state and then writes it keeps one uninterrupted critical section (one acquisition dominating all accesses, no release before the last one); (R3) WriteState puts or deletes every given record inside the function literal of a single, loop-free db.Update whose result it returns, keeps no state of its own, and skips no record. (R4) in AddMachine the node name and bindings of the record handed to WriteState resolve (through struct literals, helpers and defaults) to exactly the values installed as the new machine's State, so a restart loads what memory holds. (R5) in Process no hand-over of an emitted message (send on Service.Emitted, goroutine that re-processes it, or a helper that does either) is reachable from the edge on which WriteState returned an error. Linearizability of observed outcomes is not decided."
 	c.R.Rule("C16-R1", "E3", "write dominates memory update", 3)
 	c.R.Rule("C16-R2", "E4", "lock discipline and single critical section", 10)
 	c.R.Rule("C16-R3", "E7+E3", "one transaction for all records", 4)
+	c.R.Rule("C16-R5", "E3", "a failed write is not acted upon: nothing emitted by the uncommitted transitions is reported or re-processed", 1)
+	c16FailedWrite(c)
 	c.R.Rule("C16-R4", "E5", "the record written for a new machine is the state installed in memory", 2)
 	c16Added(c)
 	fns := c.P.FuncsIn("cmd/mcrew", "crew")
@@ -494,4 +496,93 @@ func c16Added(c *Ctx) {
 		ok := len(r) > 0 && len(m) > 0 && leafSetKey(r) == leafSetKey(m)
 		c.R.Check(ok, "C16-R4", "AddMachine: the record's "+name+" is the installed state's "+name, c.pos(rec), "both resolve to the same values (defaults included)", fmt.Sprintf("the %s written to the store (%d source values) is not the %s installed in memory (%d source values): after a restart the machine differs from the one that was running", name, len(r), name, len(m)))
 	}
+}
+
+// c16FailedWrite: C16-R5.
+func c16FailedWrite(c *Ctx) {
+	proc := c.fn("cmd/mcrew", "Service", "Process")
+	writeState := c.P.Func("cmd/mcrew", "Storage", "WriteState")
+	if proc == nil || writeState == nil {
+		return
+	}
+	var ws *ssa.Call
+	ssau.Instrs(proc, func(in ssa.Instruction) {
+		if cl, ok := in.(*ssa.Call); ok && cl.Common().StaticCallee() == writeState {
+			ws = cl
+		}
+	})
+	if ws == nil {
+		c.R.Break("C16-R5: Process does not call WriteState")
+		return
+	}
+	// functions of the package that hand an emitted message on
+	handsOn := map[*ssa.Function]bool{}
+	isHandOver := func(in ssa.Instruction) bool {
+		switch x := in.(type) {
+		case *ssa.Send:
+			_, is := ssau.LoadOfField(x.Chan, prog.Abs("cmd/mcrew"), "Service", "Emitted")
+			return is
+		case *ssa.Select:
+			for _, st := range x.States {
+				if st.Dir == types.SendOnly {
+					if _, is := ssau.LoadOfField(st.Chan, prog.Abs("cmd/mcrew"), "Service", "Emitted"); is {
+						return true
+					}
+				}
+			}
+		case *ssa.Go:
+			if x.Call.StaticCallee() == proc {
+				return true
+			}
+			if mc, ok := x.Call.Value.(*ssa.MakeClosure); ok {
+				for _, g := range pkgClosure(mc.Fn.(*ssa.Function)) {
+					if g == proc {
+						return true
+					}
+				}
+			}
+		case *ssa.Call:
+			if sc := x.Common().StaticCallee(); sc != nil && handsOn[sc] {
+				return true
+			}
+		}
+		return false
+	}
+	for changed := true; changed; {
+		changed = false
+		for _, f := range c.P.FuncsIn("cmd/mcrew") {
+			if handsOn[f] || f == proc {
+				continue
+			}
+			for _, g := range ssau.WithAnon(f) {
+				ssau.Instrs(g, func(in ssa.Instruction) {
+					if !handsOn[f] && isHandOver(in) {
+						handsOn[f] = true
+						changed = true
+					}
+				})
+			}
+		}
+	}
+	var errv ssa.Value = ws
+	if tup, isTup := ws.Type().(*types.Tuple); isTup {
+		errv = callResults(ws)[tup.Len()-1]
+	}
+	bad := ""
+	nEdges := 0
+	if errv != nil {
+		for _, e := range nonNilEdges(errv) {
+			nEdges++
+			region := flow.ReachableFrom(e, nil)
+			region[e] = true
+			for b := range region {
+				for _, in := range b.Instrs {
+					if isHandOver(in) {
+						bad = c.pos(in)
+					}
+				}
+			}
+		}
+	}
+	c.R.Check(bad == "" && nEdges > 0, "C16-R5", "Process: after a failed write nothing emitted is handed on", c.pos(ws), "no send on Service.Emitted and no re-processing goroutine is reachable from the error edge of WriteState", "after WriteState failed, Process still hands emitted messages on ("+bad+"): the transitions that produced them were not committed, so other machines (and the host) act on something that, for the store and for memory, never happened")
 }
